@@ -13,35 +13,42 @@ Definition verdict_eqb (a b : verdict) : bool :=
   | _, _ => false
   end.
 
+(* the verdict a matchImportResult and the logged errors amount to *)
+Definition mres_verdict (r : mres) (ev : list event) : verdict :=
+  match mr_kind r with
+  | MCycle => VNull
+  | MAmbiguous => VAmbiguous
+  | MNormal => if existsb (fun e => snd (fst e) =? 3) ev then VNull else VFound (mr_src r) (mr_ref r)
+  | MIgnore => if existsb (fun e => snd (fst e) =? 3) ev then VNull else VOther
+  | _ => VOther
+  end.
+
+(* ResolvedExports of every file (scanImportsAndExports step 3) *)
+Definition resolved_of (g : graph) (kinds : nat -> ekind) : nat -> list edata :=
+  fun i => match resolved_exports g kinds i with Some l => l | None => [] end.
+
 (* what the linker decides for the named import [ni] of file [s] (ESM output format) *)
 Definition link_verdict (g : graph) (order : list nat) (s : nat) (ni : nimport) : option verdict :=
   match scan_steps12 true true g order with
   | None => None
   | Some st =>
     let kinds := fun i => fst (cget st i) in
-    let resolved := fun i => match resolved_exports g kinds i with Some l => l | None => [] end in
-    match match_import g kinds resolved true (s, ni_ref ni) with
+    match match_import g kinds (resolved_of g kinds) true (s, ni_ref ni) with
     | None => None
-    | Some (r, ev) =>
-      Some (match mr_kind r with
-            | MCycle => VNull
-            | MAmbiguous => VAmbiguous
-            | MNormal => if existsb (fun e => snd (fst e) =? 3) ev then VNull else VFound (mr_src r) (mr_ref r)
-            | MIgnore => if existsb (fun e => snd (fst e) =? 3) ev then VNull else VOther
-            | _ => VOther
-            end)
+    | Some (r, ev) => Some (mres_verdict r ev)
     end
   end.
 
 (* what ECMA-262 says the import entry denotes *)
-Definition spec_verdict (g : graph) (s : nat) (ni : nimport) : option verdict :=
-  match spec_import g s ni with
-  | None => None
-  | Some RNull => Some VNull
-  | Some RAmbiguous => Some VAmbiguous
-  | Some (RBinding m (BName r)) => Some (VFound m r)
-  | Some (RBinding m BNamespace) => Some (VFound m (m_exports_ref (getm g m)))
+Definition resolution_verdict (g : graph) (R : resolution) : verdict :=
+  match R with
+  | RNull => VNull
+  | RAmbiguous => VAmbiguous
+  | RBinding m (BName r) => VFound m r
+  | RBinding m BNamespace => VFound m (m_exports_ref (getm g m))
   end.
+Definition spec_verdict (g : graph) (s : nat) (ni : nimport) : option verdict :=
+  option_map (resolution_verdict g) (spec_import g s ni).
 
 Definition agrees (g : graph) (order : list nat) (s : nat) (ni : nimport) : bool :=
   match link_verdict g order s ni, spec_verdict g s ni with
@@ -121,6 +128,32 @@ Definition named_targets_export (g : graph) : bool :=
       | Some r => match r_target r with Some t => m_export_kw (getm g t) | None => true end
       | None => true
       end) (m_imports m)) g.
+
+(* ---- scope of the unbounded theorem for graphs without export stars ---- *)
+Definition import_target (m : module) (ni : nimport) : option nat :=
+  match nth_error (m_records m) (ni_record ni) with Some r => r_target r | None => None end.
+
+Definition star_free (g : graph) : bool := forallb (fun m => match m_stars m with [] => true | _ => false end) g.
+Definition plain_modules (g : graph) : bool :=
+  forallb (fun m => negb (m_lazy m) && negb (m_is_ts m)
+                    && forallb (fun ni => negb (ni_generated ni)) (m_imports m)
+                    && forallb (fun ni => match import_target m ni with Some _ => true | None => false end) (m_imports m)
+                    && negb (existsb (fun ni => Nat.eqb (ni_ref ni) (m_exports_ref m)) (m_imports m))) g.
+
+(* rank certificate: every indirect export points to a file of strictly smaller rank
+   (no cycle of "export {a as b} from" / re-exported imports: refuted shape B) *)
+Definition rank_of (rk : list nat) (i : nat) : nat := nth i rk 0%nat.
+Definition indirect_edges (m : module) : list nat :=
+  flat_map (fun p => match find_imp (snd p) (m_imports m) with
+                     | Some ni => if ni_is_star ni then [] else
+                                  match import_target m ni with Some t => [t] | None => [] end
+                     | None => [] end) (m_exports m).
+Definition ranked_indirect (g : graph) (rk : list nat) : bool :=
+  forallb (fun s => forallb (fun t => Nat.ltb (rank_of rk t) (rank_of rk s)) (indirect_edges (getm g s)))
+          (seq 0 (length g)).
+
+Definition chain_scope (g : graph) (rk : list nat) : bool :=
+  star_free g && plain_modules g && named_targets_export g && ranked_indirect g rk.
 
 (* ---- bounded-exhaustive domain ---- *)
 (* per file and export name: nothing, a local binding, or an indirect export of a name of some file *)
